@@ -45,6 +45,13 @@ type family struct {
 	refV   func(d Dist, x []float64) rv
 	ptsV   func(d Dist, th bool) [][]float64
 	nodesV func(d Dist, th bool) ([][]float64, []float64)
+	// mutator histories (history.go): suppliers for Set* methods other than SetParameters; extra
+	// condition for SetParameters between two lattice points; argument of any length (no
+	// wrong-dimension probe); clauses run for this family (nil = all)
+	setters map[string]setter
+	compat  func(a, b Dist) bool
+	anyLen  bool
+	only    map[string]bool
 }
 
 var fams = map[string]*family{}
@@ -656,6 +663,12 @@ func init() {
 		},
 		pclass:   degenerate(0),
 		approxRT: true,
+		// SetN(int): n from the family's own lattice; theta is kept
+		setters: map[string]setter{"SetN": {
+			args:  func(th bool) []float64 { return pick(th, vv(1, 0, 5, 40), vv(1, 0, 2, 5, 40, 1000)) },
+			apply: func(d Dist, a float64) (Dist, bool) { return Dist{Fam: d.Fam, P: fs(d.p(0), a)}, true },
+			conv:  func(d Dist, a float64) any { return int(a) },
+		}},
 		valid: func(th bool) []Dist {
 			return product("binomial", pick(th, vv(0.5, 0.125, 0, 1), vv(0.5, 0.125, 0.9, 0.001, 0, 1)), pick(th, vv(1, 0, 5, 40), vv(1, 0, 2, 5, 40, 1000)))
 		},
